@@ -471,6 +471,10 @@ func judgeStart(c *mon.Case, r *mon.Run, work string, cs crashState, want identi
 
 type step struct {
 	args []string // extra key=value arguments
+	// bad: the arguments are not acceptable (out-of-range or malformed values);
+	// whether the start refuses them is not judged, but a refused start must
+	// leave the persisted identity alone, also in every crash state on the way
+	bad bool
 }
 
 func argsOf(b o4.Bridge, iat int) []string {
@@ -495,8 +499,24 @@ func runHistory(c *mon.Case, r *mon.Run, name string, steps []step, allTorn, val
 		}
 		r.Count("starts_traced", 1)
 		hist := fmt.Sprintf("%s[%d:%s]", name, si, strings.Join(maskArgs(st.args), " "))
+		if !res.out.OK && st.bad && si > 0 {
+			// the start refused its arguments: what it left behind, and every crash
+			// state on the way, must still start with the persisted identity
+			r.Count("bad_argument_starts_refused", 1)
+			for _, cs := range res.states {
+				judgeStart(c, r, work, cs, id, hist, si)
+			}
+			pre = res.post
+			continue
+		}
 		if !res.out.OK {
 			c.Violation("start-failed/"+name, fmt.Sprintf("step %d of history %s failed: %s", si, name, res.out.Err), nil)
+			return
+		}
+		if st.bad && si > 0 {
+			// the implementation accepted what we thought unacceptable: nothing to judge, and
+			// the identity it persisted now is its business
+			r.Count("bad_argument_starts_accepted", 1)
 			return
 		}
 		iatNew := res.out.IAT
@@ -744,7 +764,7 @@ func TestCheck(t *testing.T) {
 		r.Inconclusive("statehelper binary not built: " + err.Error())
 		return
 	}
-	r.Note("rule", "histories of starts on one state directory: {first start, restart, restart with iat-mode override, restart without}, {start with explicit identity arguments, restart without arguments, restart with the same arguments}, {first start, restart x3}, {start, override m1, override m2, plain start} for every ordered pair (m1, m2) of IAT modes, for PRNG identities and all three IAT modes; every start is traced with strace, every prefix of its mutating system calls on the directory plus torn writes (1 byte, half, all but one; thorough: every byte) is materialised as a crash state, materialised states at call boundaries are compared with the directory left by a real SIGKILL injected at that call, and a fresh start is run on every crash state; ScrambleSuit ticket store: store/get sequences likewise, judged by creating the client factory; bridge-line round trip by handshakes of real clients (cert and legacy form) with an independent server holding the persisted identity. Non-trivial = crash states in which at least one call of the start had been applied; distinct = (history, step, crash state).")
+	r.Note("rule", "histories of starts on one state directory: {first start, restart, restart with iat-mode override, restart without}, {start with explicit identity arguments, restart without arguments, restart with the same arguments}, {first start, restart x3}, {start, start with unacceptable arguments (out-of-range / non-numeric / empty iat-mode, explicit identity with a short key, bad hex), plain start, override, the unacceptable start again, plain start}, {start, override m1, override m2, plain start} for every ordered pair (m1, m2) of IAT modes, for PRNG identities and all three IAT modes; every start is traced with strace, every prefix of its mutating system calls on the directory plus torn writes (1 byte, half, all but one; thorough: every byte) is materialised as a crash state, materialised states at call boundaries are compared with the directory left by a real SIGKILL injected at that call, and a fresh start is run on every crash state; ScrambleSuit ticket store: store/get sequences likewise, judged by creating the client factory; bridge-line round trip by handshakes of real clients (cert and legacy form) with an independent server holding the persisted identity. Non-trivial = crash states in which at least one call of the start had been applied; distinct = (history, step, crash state).")
 	nID := r.Pick(2, 12)
 	shapes := []struct {
 		name string
@@ -767,6 +787,30 @@ func TestCheck(t *testing.T) {
 				runHistory(c, r, sh.name, sh.mk(b, k), r.Thorough() && k == 0, k < r.Pick(1, 3), seed)
 			})
 		}
+	}
+	// a start that is refused (unacceptable arguments) between two good ones
+	badArgs := [][]string{
+		{"iat-mode=3"}, {"iat-mode=-1"}, {"iat-mode=7"}, {"iat-mode=abc"}, {"iat-mode="},
+		{"node-id=00", "private-key=11", "drbg-seed=22"},
+		{"node-id=zz"},
+	}
+	for bi := range badArgs {
+		bi := bi
+		r.Case(fmt.Sprintf("history/refused-start/%d", bi), func(c *mon.Case) {
+			seed := r.Sub("refused", bi)
+			b := o4.NewBridge(mon.NewRand(seed), 0)
+			ba := badArgs[bi]
+			if bi == 5 {
+				// an explicit identity whose private key is one byte short
+				ba = []string{"node-id=" + hex.EncodeToString(b.Ref.NodeID[:]), "private-key=" + hex.EncodeToString(b.Ref.Priv[:31]), "drbg-seed=" + hex.EncodeToString(b.Seed[:])}
+			}
+			steps := []step{{}, {args: ba, bad: true}, {}, {args: []string{"iat-mode=" + strconv.Itoa(1+bi%2)}}, {args: ba, bad: true}, {}}
+			if bi%2 == 1 {
+				steps[0] = step{args: argsOf(b, bi%3)}
+			}
+			runHistory(c, r, "refused-start", steps, false, false, seed)
+			r.Count("refused_start_histories", 1)
+		})
 	}
 	// every ordered pair of IAT overrides (including back to 0), then a plain start
 	for m1 := 0; m1 < 3; m1++ {
